@@ -30,6 +30,7 @@ ASSUMPTIONS = [
 ]
 COMPONENTS = {
     "rustfmt": "real (rebuilt from /repo working tree, dev profile, --cfg rustfmt_verif)",
+    "library API session": "real rustfmt library driven by sim/session_driver (one Session, override_config + format per input), under the same interposer",
     "file system / env / cwd": "real tmpfs behind simfs; environment fully specified per run",
     "hash seed": "simulated (4 seeds per world)", "clock": "simulated",
 }
@@ -135,6 +136,49 @@ def report_lines(res, root_abs):
     return sorted(lines)
 
 
+def prepare(tier):
+    core.build_driver()
+
+
+class _Fake:
+    pass
+
+
+def run_api(sc, v, case, world, order, inputs, mode, known):
+    """the same inputs through ONE library session (Session::override_config + Session::format per input)"""
+    import json as _json
+    sc.fresh_world(world)
+    steps = []
+    for k in order:
+        ov = []
+        cli = case["cli"]
+        if cli[:1] == ["--config"]:
+            ov = [p.split("=", 1) for p in cli[1].split(",")]
+        elif cli[:1] == ["--edition"]:
+            ov = [["edition", cli[1]]]
+        steps.append({"file": os.path.join(sc.root, inputs[k]["root"]), "discover": True, "config_path": None, "overrides": ov})
+    with open(os.path.join(sc.top, "script.json"), "w") as f:
+        _json.dump({"emit": mode, "steps": steps}, f)
+    res = core.run_inv(sc, {"tool": core.DRIVER, "argv": [os.path.join(sc.top, "script.json")], "hashseed": case["hashseed"]})
+    v.account(res)
+    out = core.text_of(res.stdout)
+    lines = out.rstrip("\n").split("\n")
+    try:
+        doc = _json.loads(lines[-1])
+    except ValueError:
+        v.add("C15:api-session-abnormal", "session-driver status=%s stderr=%r" % (res.status(), core.text_of(res.stderr)[-300:]))
+        return None
+    fake = _Fake()
+    fake.stdout = ("\n".join(lines[:-1]) + ("\n" if len(lines) > 1 else "") + doc["all"]).encode("utf-8")
+    files_of = [f for k in order for f in inputs[k]["files"]]
+    pf = per_file(mode, fake, sc.root, sc.root, known, files_of)
+    fl = doc["flags"]
+    # an Err returned by Session::format is what main.rs turns into an operational error
+    failed = any(st.get("error") for st in doc["steps"])
+    status = 1 if (failed or fl["operational"] or fl["parsing"] or (mode == "check" and (fl["diff"] or fl["check"]))) else 0
+    return pf, status
+
+
 def execute(case):
     v = Verdict()
     mode, margs = case["mode"]
@@ -207,6 +251,54 @@ def execute(case):
                 missing = [l for l in want_lines if l not in got_lines][:2]
                 extra = [l for l in got_lines if l not in want_lines][:2]
                 v.add("C15:reports-differ", "order %s: stderr report lines are not the union of the single runs' (missing %r, extra %r); argv=%s" % (list(perm), missing, extra, argv))
+        # (a') the same orders through one library API session
+        if os.path.exists(core.DRIVER):
+            for perm in perms[:2]:
+                r = run_api(sc, v, case, world, list(perm), inputs, mode, known)
+                if r is None:
+                    continue
+                pf, status = r
+                for k in perm:
+                    for f in inputs[k]["files"]:
+                        if pf.get(f) != single[k][1].get(f):
+                            v.add("C15:api-session-vs-single|%s" % mode, "API session, order %s: result for %s differs from its single-input command-line run" % (list(perm), f), file=f)
+                            break
+                if status != want_status:
+                    v.add("C15:api-session-status", "API session, order %s: status %d, single statuses %s" % (list(perm), status, [s[0].status() for s in single]))
+                v.probe("api-session")
+        # (e) an I/O error while one input is emitted must not change what happens to the inputs after it
+        if mode == "files" and n >= 2:
+            perm = list(perms[0])
+            j = perm[case["permseed"] % (n - 1)]  # never the last one: something must come after it
+            victim = inputs[j]
+            if victim["kind"] == "unformatted":
+                sc.fresh_world(world)
+                args = [inputs[k]["root"] for k in perm]
+                en = [28, 13, 5, 30][case["permseed"] % 4]
+                inv = {"argv": ["--color", "never"] + list(margs) + list(case["cli"]) + args, "hashseed": case["hashseed"],
+                       "plan": ["* openw 1 %s errno %d" % (os.path.normpath(victim["root"]), en)]}
+                res = core.run_inv(sc, inv)
+                v.planned("errno")
+                if any(e.fault for e in res.events):
+                    v.fired("errno")
+                    v.account(res)
+                    files_of = [f for k in perm for f in inputs[k]["files"]]
+                    pf = per_file(mode, res, sc.root, sc.root, known, files_of)
+                    for k in perm:
+                        if k == j:
+                            continue
+                        for f in inputs[k]["files"]:
+                            if pf.get(f) != single[k][1].get(f):
+                                when = "after" if perm.index(k) > perm.index(j) else "before"
+                                v.add("C15:io-error-on-one-input-affects-another|%s" % when,
+                                      "write of %s failed (errno %d); %s, named %s it, differs from its single-input result; argv=%s" % (victim["root"], en, f, when, inv["argv"]), file=f)
+                                break
+                    if res.exit != 1 and not core.abnormal(res):
+                        v.add("C15:io-error-exit-status", "write of %s failed but exit %s" % (victim["root"], res.status()))
+                    ab = core.abnormal(res)
+                    if ab:
+                        v.add("C15:abnormal|%s" % ab, "under an injected write error: status=%s" % res.status())
+                    v.probe("io-error-on-earlier-input")
         # (c) hash seeds
         for k in (1, 2, 3):
             res, pf, muts, argv = run(list(perms[0]), seed=(case["hashseed"] * 31 + k * 104729) & 0xFFFFFFFF)
